@@ -109,7 +109,7 @@ def bad_rows(prop):
                 out.append((n, f"subscribes upstream but returns no teardown ({r['File']}:{r['Line']})"))
         elif prop == 'C07':
             for g in r['GoStmts'] or []:
-                if g['Kind'] == 'go' and g['CallsUser'] and not g['Recovered'] and n != 'Future':
+                if g['Kind'] == 'go' and g['CallsUser'] and not g['Recovered']:
                     out.append((n, f"goroutine running user code without recover ({r['File']}:{g['Line']})"))
     return out
 
